@@ -660,7 +660,7 @@ func TestCheck(t *testing.T) {
 		},
 		Real:           []string{"Worktree.Checkout (SparseCheckoutDirectories)", "Worktree.Reset (SparseDirs, SkipSparseDirValidation)", "index.Index.SkipUnless", "treeContainsDirs", "resetIndex/resetWorktree/resetWorktreeToTree", "storage/filesystem"},
 		Stub:           []string{"disk (simfs)"},
-		Runs:           map[string]int{"quick": 120000, "thorough": 3000000},
+		Runs:           map[string]int{"quick": 100000, "thorough": 3000000},
 		NewPlan:        func() any { return &Plan{} },
 		Gen:            genPlan,
 		Exec:           execPlan,
